@@ -189,7 +189,7 @@ theorem sectCells_printed (cfg : Cfg) (st : RS) (vs : List Pos) (es : List (Nat 
       vs es fs [] [] vs.length es.length fs.length)
     (hl : cs.length ≤ cfg.lim) (h64 : cs.length < 2 ^ 64)
     (hb : ∀ c ∈ cs, (∀ x ∈ c, x < 2 * fs.length ∧ x < 2 ^ 32) ∧ c.length ≤ cfg.lim ∧ c.length < 2 ^ 64 ∧
-      cellDec cfg fs c = .accept c) :
+      cellDec cfg es fs c = .accept c) :
     Snap (sectCells cfg st) (good rest) vs es fs cs [] vs.length es.length fs.length := by
   have e0 : line (kw "Polyhedra") ++ line (showNat cs.length) ++ cs.flatMap printHandles ++ rest =
       line (kw "Polyhedra") ++ (line (showNat cs.length) ++ (cs.flatMap printHandles ++ rest)) := by simp
@@ -204,13 +204,13 @@ theorem sectCells_printed (cfg : Cfg) (st : RS) (vs : List Pos) (es : List (Nat 
   simp only at hC
   unfold sectCells
   simp only [hK, hC, Option.isSome_none, Bool.false_eq_true, if_false]
-  obtain ⟨r1, r2, r3, r4, r5, r6, r7⟩ := cellLoop_printed cfg fs (2 * fs.length) cs 0
+  obtain ⟨r1, r2, r3, r4, r5, r6, r7⟩ := cellLoop_printed cfg es fs (2 * fs.length) cs 0
     { is := good (cs.flatMap printHandles ++ rest), line := showNat cs.length, stmp := kPOLYHEDRA,
       v := v0, verts := vs, edges := es, faces := fs, fault := fa0, dV := vs.length, dE := es.length, dF := fs.length }
     rest rfl rfl hb
-  have hd := loopN_inv (cellStep cfg fs (2 * fs.length)) (fun s => s.dV = vs.length ∧ s.dE = es.length ∧ s.dF = fs.length)
+  have hd := loopN_inv (cellStep cfg es fs (2 * fs.length)) (fun s => s.dV = vs.length ∧ s.dE = es.length ∧ s.dF = fs.length)
     (fun i s h => by
-      obtain ⟨_, _, _, _, a5, a6, a7⟩ := cellStep_facts cfg fs (2 * fs.length) i s
+      obtain ⟨_, _, _, _, a5, a6, a7⟩ := cellStep_facts cfg es fs (2 * fs.length) i s
       exact ⟨a5.trans h.1, a6.trans h.2.1, a7.trans h.2.2⟩) cs.length 0
     { is := good (cs.flatMap printHandles ++ rest), line := showNat cs.length, stmp := kPOLYHEDRA,
       v := v0, verts := vs, edges := es, faces := fs, fault := fa0, dV := vs.length, dE := es.length, dF := fs.length }
